@@ -80,17 +80,17 @@ def stop_trace():
 
 def gen_cases(rng, tier):
     cases = []
-    reps = 5 if tier == "quick" else 20
+    reps = 6 if tier == "quick" else 80
     for pair in STRUCT_PAIRS:
         for _ in range(reps):
             cases.append({"kind": "pair", "null": pair[0], "alt": pair[1], "seed": rng.randrange(2**32)})
     for pair in CODON_PAIRS:
-        for _ in range(1 if tier == "quick" else 6):
+        for _ in range(2 if tier == "quick" else 30):
             cases.append({"kind": "pair", "null": pair[0], "alt": pair[1], "seed": rng.randrange(2**32)})
     for m in SCOPE_MODELS:
         for _ in range(reps):
             cases.append({"kind": "scope", "model": m, "seed": rng.randrange(2**32)})
-    for _ in range(2 if tier == "quick" else 12):
+    for _ in range(3 if tier == "quick" else 40):
         cases.append({"kind": "app", "seed": rng.randrange(2**32)})
     return cases
 
